@@ -46,7 +46,7 @@ impl Property for C07 {
         prop_oneof![6 => from_sentence, 3 => salad].boxed()
     }
     fn cases(&self, tier: Tier) -> u64 {
-        tier.pick(300_000, 6_000_000)
+        tier.pick(2_000_000, 25_000_000)
     }
     fn check(&self, c: &Case, obs: &mut Obs) -> Result<(), String> {
         let lg = lang(&c.lang);
